@@ -272,7 +272,7 @@ class CacheRunner:
                 h, mi = cache.stats(enable=bool(f['enable']), reset=bool(f['reset']))
                 res = '(i%d,i%d)' % (h, mi)
             elif m == 'tbegin':
-                cm = cache.transact()
+                cm = cache.transact(retry=self.retry)
                 cm.__enter__()
                 self.blocks.append(cm)
                 res = 'n'
